@@ -7,10 +7,10 @@ From stdpp Require Import gmap.
 From Coq Require Import NArith.
 From MSP Require Import L2.Sys L2.Szdd Proofs.Mon Proofs.SzddLedger.
 
-Theorem C20_szdd_decompress_callbacks_ok : forall (o : oracle) fuel, bad (snd (run o mon0 (script_decompress fuel))) = false.
-Proof. intros o fuel. apply (szdd_script_decompress_clean o fuel). Qed.
+Theorem C20_szdd_decompress_callbacks_ok : forall (o : oracle) junk fuel, bad (snd (run o mon0 (script_decompress junk fuel))) = false.
+Proof. intros o junk fuel. apply (szdd_script_decompress_clean o junk fuel). Qed.
 Print Assumptions C20_szdd_decompress_callbacks_ok.
 
-Theorem C20_szdd_open_extract_close_callbacks_ok : forall (o : oracle) fuel, bad (snd (run o mon0 (script_open_extract fuel))) = false.
-Proof. intros o fuel. apply (szdd_script_open_extract_clean o fuel). Qed.
+Theorem C20_szdd_open_extract_close_callbacks_ok : forall (o : oracle) junk fuel, bad (snd (run o mon0 (script_open_extract junk fuel))) = false.
+Proof. intros o junk fuel. apply (szdd_script_open_extract_clean o junk fuel). Qed.
 Print Assumptions C20_szdd_open_extract_close_callbacks_ok.
